@@ -432,3 +432,27 @@ def hex_segments(case, ctx):
                                        flatten=True, pad=case["pad"], drop=tuple(case["drop"]))
         if flat.shape != m.shape[1:] or not np.allclose(flat, m.sum(axis=0), atol=1e-12):
             raise Violation("C20.hexseg.flatten", "flatten=True is not the sum of the segment masks")
+
+
+@st.composite
+def spider_case(draw, tier):
+    shape = draw(gen.shape2(8, 40))
+    return {"shape": list(shape), "width": draw(gen.finite(0.5, 6.0)), "angle": draw(st.sampled_from([0, 45.0, 90, 120.0, -30.0, 270])),
+            "shift": [draw(st.integers(-3, 3)), draw(st.integers(-3, 3))], "antialias": draw(st.booleans())}
+
+
+@hyp("C20", "spider", lambda tier: spider_case(tier),
+     "spider: values in [0, 1], binary without antialiasing, complement of the corresponding rectangle arm",
+     examples=(150, 600))
+def spider(case, ctx):
+    shape = tuple(case["shape"])
+    ctx.tag("antialias" if case["antialias"] else "binary", gen.parity_tags("s", shape))
+    ctx.nontrivial_if(any(case["shift"]) or shape[0] != shape[1])
+    with lentil_call("C20.spider", "spider"):
+        a = lentil.spider(shape, case["width"], angle=case["angle"], shift=tuple(case["shift"]), antialias=case["antialias"])
+    if a.shape != shape or a.min() < 0 or a.max() > 1 or not np.all(np.isfinite(a)):
+        raise Violation("C20.shape.range", f"spider values outside [0,1] or wrong shape {a.shape}")
+    if not case["antialias"] and not np.all((a == 0) | (a == 1)):
+        raise Violation("C20.shape.binary", "spider(antialias=False) is not binary")
+    if a.min() == 1:
+        raise Violation("C20.shape.empty", "spider arm of width >= 0.5 drew nothing")
